@@ -234,7 +234,7 @@ func Operands(t *rapid.T) []string {
 	n := rapid.IntRange(0, 5).Draw(t, "nopd")
 	var out []string
 	for i := 0; i < n; i++ {
-		out = append(out, rapid.SampledFrom([]string{"r0", "r1", "r2", "r0", "r1", "-", "", "v=1", "v=two", "w=x", "flag=1", "FS=,", "nofile", "v=a\\tb"}).Draw(t, "opd"))
+		out = append(out, rapid.SampledFrom([]string{"r0", "r1", "r2", "r0", "r1", "-", "", "v=1", "v=two", "w=x", "flag=1", "FS=,", "nofile", "v=a\\tb", "v=l1\nl2", "w=\n", "v=a=b\n=c", "v= x ", "flag=1\n"}).Draw(t, "opd"))
 	}
 	return out
 }
